@@ -180,12 +180,25 @@ def finite_field(f):
 
 
 def well_posed_field(mesh):
-    """every vertex metric SPD in exact arithmetic with a moderate anisotropy: the family of the property text"""
+    """every vertex metric SPD in exact arithmetic with a moderate anisotropy: the family of the property text
+    (anisotropy up to 1e4:1 in length, i.e. conditioning <= 1e8 of the tensor; for an embedded 2-D tensor the in-plane
+    block counts).  Beyond that conditioning a double-precision tensor is positive definite only up to rounding and the
+    statements about the VALUES (not the bit-comparison with the model) are not made."""
     for m in mesh.metric:
         if not is_spd_exact(m):
             return False
         if max(abs(x) for x in m) > 1e12:
             return False
+        if mesh.twod and embedded(m):
+            tr, det = m[0] + m[3], m[0] * m[3] - m[1] * m[1]
+            disc = math.sqrt(max(tr * tr / 4.0 - det, 0.0))
+            lo, hi = tr / 2.0 - disc, tr / 2.0 + disc
+            if not (lo > 0 and hi / lo <= 1e8) and not (det > 0 and hi * hi / det <= 1e8):
+                return False
+        else:
+            ev = sm_eigs(m)
+            if not (ev[0] > 0 and ev[2] / ev[0] <= 1e8):
+                return False
     return True
 
 
@@ -271,6 +284,13 @@ def o_local_scale(mesh, p, line, out):
         return
     e = -1.0 / (2 * p + (2 if mesh.twod else 3))
     for n, (a, b) in enumerate(zip(src, field)):
+        # ref_metric_local_scale scales only when ref_matrix_det_m (Gaussian elimination in doubles, accurate to about
+        # conditioning x 1e-16) returns a positive determinant: for an SPD tensor of conditioning beyond ~1e8 the computed
+        # determinant can be <= 0 and the tensor is left as it is.  The statement is made for the conditioning of the
+        # property's family (<= 1e8); beyond it the values are only bit-compared with the model.
+        ev = sm_eigs(a)
+        if not (ev[0] > 0 and ev[2] / ev[0] <= 1e8):
+            continue
         s = float(det_exact(a)) ** e
         for k in ((0, 1, 3) if mesh.twod else range(6)):
             if abs(b[k] - a[k] * s) > 1e-9 * abs(a[k] * s) + 1e-300:
